@@ -53,7 +53,156 @@ pub fn dump_crate<'tcx>(tcx: TyCtxt<'tcx>) -> J {
         ("impls", J::Arr(impls)),
         ("bodies", J::Arr(bodies)),
         ("no_mir", J::Arr(fns_without_body)),
+        ("cfgs", J::Arr(dump_cfgs(tcx))),
+        ("escapes", J::Arr(dump_escapes(tcx))),
     ])
+}
+
+// Constructs that let state change without a `&mut` path from a parameter - the assumption behind the effect summaries:
+// user-written unsafe blocks / fns / impls, and statics (global state).  Interior-mutability field types are judged by
+// the analysis from the field type strings of the ADT dump.
+fn dump_escapes(tcx: TyCtxt<'_>) -> Vec<J> {
+    use rustc_hir::intravisit::{self, Visitor};
+    struct V<'a> {
+        out: &'a mut Vec<J>,
+        owner: String,
+        file_line: Box<dyn Fn(Span) -> (String, i128) + 'a>,
+    }
+    impl<'a, 'v> Visitor<'v> for V<'a> {
+        fn visit_block(&mut self, b: &'v rustc_hir::Block<'v>) {
+            if let rustc_hir::BlockCheckMode::UnsafeBlock(rustc_hir::UnsafeSource::UserProvided) = b.rules {
+                if !b.span.from_expansion() {
+                    let (f, l) = (self.file_line)(b.span);
+                    self.out.push(J::obj(vec![
+                        ("kind", J::s("unsafe-block")),
+                        ("in", J::s(self.owner.clone())),
+                        ("file", J::s(f)),
+                        ("line", J::Int(l)),
+                    ]));
+                }
+            }
+            intravisit::walk_block(self, b);
+        }
+    }
+    let mut out = vec![];
+    let sm = tcx.sess.source_map();
+    let fl = |sp: Span| -> (String, i128) {
+        let lo = sm.lookup_char_pos(sp.lo());
+        (format!("{}", lo.file.name.prefer_local_unconditionally()), lo.line as i128)
+    };
+    for ldid in tcx.hir_body_owners() {
+        let did = ldid.to_def_id();
+        let kind = tcx.def_kind(did);
+        if matches!(kind, DefKind::Fn | DefKind::AssocFn) {
+            if tcx.fn_sig(did).skip_binder().safety().is_unsafe() {
+                let (f, l) = fl(tcx.def_span(did));
+                out.push(J::obj(vec![
+                    ("kind", J::s("unsafe-fn")),
+                    ("in", J::s(def_key(tcx, did))),
+                    ("file", J::s(f)),
+                    ("line", J::Int(l)),
+                ]));
+            }
+        }
+        if matches!(kind, DefKind::Fn | DefKind::AssocFn | DefKind::Closure | DefKind::Const { .. } | DefKind::Static { .. }) {
+            let body = tcx.hir_body_owned_by(ldid);
+            let mut v = V { out: &mut out, owner: def_key(tcx, did), file_line: Box::new(&fl) };
+            v.visit_body(body);
+        }
+    }
+    for ldid in tcx.hir_crate_items(()).definitions() {
+        let did = ldid.to_def_id();
+        if let DefKind::Static { mutability, .. } = tcx.def_kind(did) {
+            let ty = tcx.type_of(did).instantiate_identity().skip_norm_wip();
+            let (f, l) = fl(tcx.def_span(did));
+            out.push(J::obj(vec![
+                ("kind", J::s(if mutability.is_mut() { "static-mut" } else { "static" })),
+                ("in", J::s(path_str(tcx, did))),
+                ("ty", J::s(with_no_trimmed_paths!(ty.to_string()))),
+                ("file", J::s(f)),
+                ("line", J::Int(l)),
+            ]));
+        }
+    }
+    out
+}
+
+// Every `cfg(..)`, `cfg!(..)` and `cfg_attr(..)` predicate written in the crate's own source files (lexed, so comments
+// and string literals do not count).  Items a predicate strips are invisible after expansion; the analysis uses this
+// list to know which configurations it would have to build to have seen everything.
+fn dump_cfgs(tcx: TyCtxt<'_>) -> Vec<J> {
+    use rustc_lexer::TokenKind as K;
+    let mut out = vec![];
+    let sm = tcx.sess.source_map();
+    for f in sm.files().iter() {
+        if f.cnum != rustc_hir::def_id::LOCAL_CRATE {
+            continue;
+        }
+        let Some(src) = f.src.as_ref() else { continue };
+        let name = format!("{}", f.name.prefer_local_unconditionally());
+        if name.starts_with('<') {
+            continue;
+        }
+        let mut toks = vec![];
+        let mut pos = 0usize;
+        for t in rustc_lexer::tokenize(src, rustc_lexer::FrontmatterAllowed::No) {
+            let len = t.len as usize;
+            match t.kind {
+                K::Whitespace | K::LineComment { .. } | K::BlockComment { .. } => {}
+                k => toks.push((k, pos, len)),
+            }
+            pos += len;
+        }
+        let mut i = 0;
+        while i < toks.len() {
+            let (k, p, l) = toks[i];
+            let text = &src[p..p + l];
+            if matches!(k, K::Ident) && (text == "cfg" || text == "cfg_attr") {
+                let mut j = i + 1;
+                if j < toks.len() && matches!(toks[j].0, K::Bang) {
+                    j += 1;
+                }
+                if j < toks.len() && matches!(toks[j].0, K::OpenParen) {
+                    let start = toks[j].1 + 1;
+                    let mut depth = 0i32;
+                    let mut end = start;
+                    let mut words = vec![];
+                    while j < toks.len() {
+                        match toks[j].0 {
+                            K::OpenParen => depth += 1,
+                            K::CloseParen => {
+                                depth -= 1;
+                                if depth == 0 {
+                                    end = toks[j].1;
+                                    break;
+                                }
+                            }
+                            K::Comma if depth == 1 && text == "cfg_attr" && end == start => {
+                                // cfg_attr(pred, attrs..): the predicate ends at the first top-level comma
+                                end = toks[j].1;
+                            }
+                            _ => {}
+                        }
+                        if end == start {
+                            words.push(J::s(&src[toks[j].1..toks[j].1 + toks[j].2]));
+                        }
+                        j += 1;
+                    }
+                    let line = src[..p].matches('\n').count() + 1;
+                    out.push(J::obj(vec![
+                        ("file", J::s(name.clone())),
+                        ("line", J::Int(line as i128)),
+                        ("kind", J::s(text)),
+                        ("pred", J::s(src[start..end.max(start)].trim())),
+                        ("tokens", J::Arr(words)),
+                    ]));
+                    i = j;
+                }
+            }
+            i += 1;
+        }
+    }
+    out
 }
 
 fn path_str(tcx: TyCtxt<'_>, did: DefId) -> String {
